@@ -8,7 +8,7 @@ import tempfile
 import threading
 from concurrent.futures import ThreadPoolExecutor
 
-from .. import common, dumps, lexc, progs, renderrun
+from .. import common, dumps, lexc, listops, progs, renderrun
 from . import render_common as rc
 
 C_FAMILY = ("C", "CPP", "OC", "OC+")
@@ -233,6 +233,7 @@ def explore(rep, cases, judge, stats, timeout=20):
                 except Exception as e:
                     f.append(("lexc-error", "the lexical specification failed: %s" % str(e)[:100]))
             judge(case, R, tin, tout, f)
+            listops.judge_calls(R, f)
             if R.fin is not None:
                 try:
                     diffs, _ = renderrun.compare_file(tl.m, R.prefix)
